@@ -358,6 +358,7 @@ class GatherUnit(Unit):
         s1.ghost['none_got'] = z3.BoolVal(True)
         s2 = st.fork()
         uid, y = fresh('uid'), fresh('y')
+        s2.assume(V.is_intv(uid))       # request ids are the ints minted by _enqueue (next(itertools.count())), carried unchanged through every stage (worker / servlet units)
         s2.assume(z == V.tup(V.seq_of([uid, y])), *V.cls_facts(y), *V.cls_facts(z))
         s2.ghost['cur_uid'] = uid
         s2.ghost['cur_y'] = y
@@ -652,6 +653,7 @@ class AGatherUnit(Unit):
         s1.ghost['none_got'] = z3.BoolVal(True)
         s2 = st.fork()
         uid, y = fresh('uid'), fresh('y')
+        s2.assume(V.is_intv(uid))       # request ids are the ints minted by _enqueue (next(itertools.count())), carried unchanged through every stage (worker / servlet units)
         s2.assume(z == V.tup(V.seq_of([uid, y])), *V.cls_facts(y), *V.cls_facts(z))
         s2.ghost['cur_uid'] = uid
         s2.ghost['cur_y'] = y
